@@ -204,6 +204,8 @@ where
             let dist_ptr = self.dist.as_mut_ptr();
 
             for (v, w) in self.digraph.out_neighbors_weighted(u) {
+                assert!(v < self.dist.len(), "v = {v} isn't in the digraph");
+
                 let w_next = w_prev.saturating_add(*w);
                 let dist_v = unsafe { dist_ptr.add(v) };
 
